@@ -34,16 +34,42 @@ REACH_MIN = {"rebalances_after_first": {"quick": 150, "thorough": 4000},
 CONSUMER_APIS = ("Fetch", "OffsetFetch", "ListOffsets", "OffsetCommit")
 
 
+STOP_APIS = ("FindCoordinator", "Metadata", "JoinGroup", "SyncGroup", "Heartbeat", "OffsetCommit", "OffsetFetch")
+
+
 def cases(tier, seed):
-    n = {"quick": 150, "thorough": 4000}[tier]
+    n = {"quick": 240, "thorough": 5000}[tier]
     out = []
     for i in range(n):
         out.append(dict(seed=seed * 1000003 + 1600000 + i, profile=("rebalance" if i % 5 else "grow")))
+    # stop() injected right after the member issued the n-th request of a kind (so it lands while that request, or
+    # the wait that follows it, is outstanding)
+    k = 0
+    for rep in range({"quick": 1, "thorough": 12}[tier]):
+        for api in STOP_APIS:
+            for nth in (0, 1, 2, 3):
+                for delay in (0.0, 0.004):
+                    out.append(dict(seed=seed * 1000003 + 1650000 + k, profile="stopat", api=api, nth=nth, delay=delay))
+                    k += 1
+    # the overlapping-error templates of C17 (a rejoin timer firing while a join is in progress) under this monitor
+    from . import c17
+    tm = [c for c in c17.cases(tier, seed) if c.get("dense")]
+    for c in tm[:{"quick": 60, "thorough": 1500}[tier]]:
+        out.append(dict(seed=c["seed"], profile="c17", c17=c))
     return out
 
 
 def gen(spec):
+    if spec["profile"] == "c17":
+        from . import c17
+        return c17.build(spec["c17"])
     sc = grp.gen_scenario(spec["seed"], "rebalance")
+    if spec["profile"] == "stopat":
+        rng = random.Random(spec["seed"])
+        sc["members"][0].update(start=0.0, stop=None, kill=None)
+        sc["latency"] = rng.choice((0.005, 0.02))
+        sc["horizon"] = 16.0
+        sc["events"] = [e for e in sc["events"] if e[1] != "evict" or e[2] != 0]
     if spec["profile"] == "grow":
         # the same leader assigns twice with a partition added in between
         rng = random.Random(spec["seed"])
@@ -443,7 +469,24 @@ def run(spec):
     sc = gen(spec)
     box = []
     mon = Mon(res, box)
-    tr = grp.run_scenario(sc, hooks=dict(event=mon.on_event))
+    hook = mon.on_event
+    if spec["profile"] == "stopat":
+        seen = [0]
+
+        def hook(tr_, ev):
+            mon.on_event(tr_, ev)
+            if ev["member"] == "m0" and ev["kind"] == "req" and ev["api"] == spec["api"]:
+                seen[0] += 1
+                if seen[0] - 1 == spec["nth"]:
+                    tr_.w.clock.labelled(spec["delay"], "act.stop.m0", tr_.members["m0"].do_stop)
+    if spec["profile"] == "c17":
+        from . import c17
+        m17 = c17.Mon(Result(), spec["c17"])  # only for its fault-chaining side (rules installed on heartbeats)
+
+        def hook(tr_, ev):  # noqa: F811
+            mon.on_event(tr_, ev)
+            m17.on_event(tr_, ev)
+    tr = grp.run_scenario(sc, hooks=dict(event=hook))
     if tr.capped:
         res.inconclusive.append("scenario aborted: %s" % getattr(tr, "cap_reason", "?"))
         return res
